@@ -89,8 +89,10 @@ def generate_ge(predicate: GePredicate) -> Iterator:
     match predicate.v:
         case datetime() as dt:
             yield from (dt - timedelta(days=days) for days in range(1, 6))
-        case float():
-            yield from random_floats(upper=math.nextafter(predicate.v, -math.inf))
+        case float() as v:
+            # only a float that has a predecessor has values below it (nothing is less than -inf)
+            if (upper := math.nextafter(v, -math.inf)) < v:
+                yield from random_floats(upper=upper)
         case int():
             yield from random_ints(upper=predicate.v - 1)
         case str():
